@@ -227,6 +227,14 @@ class SimSocket(socket.socket):
         if self.closed_by_app:
             link.log.append(("recv", bufsize, "closed-by-app", 0))
             raise OSError(9, "Bad file descriptor")
+        if bufsize <= 0:
+            # like a real socket: asking for nothing yields nothing (and costs a step)
+            link.calls += 1
+            if link.calls > link.budget:
+                raise SimBudgetExceeded(f"{link.calls} transport calls")
+            link.log.append(("recv", bufsize, "zero", 0))
+            link.fault_in_call += 1  # an empty result the caller cannot tell from "closed"
+            return b""
         d = link._step("recv", bufsize)
         kind = d[0]
         if kind == "eof":
